@@ -391,9 +391,11 @@ def laws(rng, tier, ctx):
                     bad = 'columns %s instead of %s' % (list(b.columns), sorted(cs))
                     break
                 for c in b.columns:
-                    if c in a.columns and m == 'N':
-                        if not same_vals(list(map(float, b[c].values)), expected_series(a[c], want, None)):
-                            bad = 'frame column %s values changed' % c
+                    if c in a.columns:
+                        # the statement, column by column: own value / NaN, or the column's last / next non-NaN observation
+                        exp = expected_series(a[c], want, dec_method(m))
+                        if not same_vals(list(map(float, b[c].values)), exp):
+                            bad = 'frame column %s values: got %s, the statement gives %s' % (c, list(b[c].values), exp)
                             break
                     elif c not in a.columns and not all(_isnan(float(v)) for v in b[c].values):
                         bad = 'a column the frame lacked is not NaN'
